@@ -147,6 +147,15 @@ impl Ref {
                 self.dep(p, *d)?;
                 0
             }
+            // outside its domain the executor panics: no value (the fault
+            // propagates to every evaluation that demands this node)
+            Body::Partial(d) => {
+                let v = self.dep(p, *d)?;
+                if v == 2 {
+                    return None;
+                }
+                v
+            }
             Body::JoinAdd(ds) | Body::UnordAdd(ds) => {
                 let mut s = 0;
                 for d in ds {
@@ -177,7 +186,7 @@ impl Ref {
         let mut out = Vec::new();
         match b {
             Body::Lit(_) => {}
-            Body::Id(d) | Body::Sat(d) | Body::ConstRead(d) => {
+            Body::Id(d) | Body::Sat(d) | Body::ConstRead(d) | Body::Partial(d) => {
                 out.push((*d, self.dep(p, *d)?));
             }
             Body::Add(a, b) => {
